@@ -20,7 +20,8 @@ Record case16 := mk16 {
   c_title  : text;                 (* the text used for title=<text> *)
   c_join   : text;
   c_starts : list Z;               (* ids of the nodes Node.format_iter is called on *)
-  c_jstarts : list Z }.            (* ids of the nodes Node.format(join=...) is called on *)
+  c_jstarts : list Z;              (* ids of the nodes Node.format(join=...) is called on *)
+  c_full : bool }.                 (* compare every observation as full text (tiny trees: readable replays) *)
 
 Definition sel (f : forest) (ids : list Z) : list nctx :=
   filter (fun x => existsb (Z.eqb (Z.of_nat (rid (n_node x)))) ids) (ctxs_l [] f).
@@ -54,6 +55,8 @@ Definition sx_hlines (ls : list text) : sx :=
 Definition sx_htext (t : text) : sx := L [A (Z.of_nat (length t)); A (hash_text 7%Z t)].
 
 Definition run16_style (c : case16) (a : style_arg) : sx :=
+  let sx_hlines := if c_full c then sx_lines else sx_hlines in
+  let sx_htext := if c_full c then sx_text else sx_htext in
   let f := c_forest c in
   let rend := rend_of (c_rends c) in
   let trepr := tree_repr (c_cls c) (c_name c) in
